@@ -3,7 +3,7 @@
 namespace Tea.Doc
 
 def fact_body_Batch : List String := [
-    "{ var validCmds []Cmd //nolint:prealloc for _, c := range cmds { if c == nil { continue } validCmds = append(validCmds, c) } switch len(validCmds) { case 0: return nil case 1: return validCmds[0] default: return func() Msg { return BatchMsg(validCmds) } } }"]
+    "{ var validCmds []Cmd for _, c := range cmds { if c == nil { continue } validCmds = append(validCmds, c) } switch len(validCmds) { case 0: return nil case 1: return validCmds[0] default: return func() Msg { return BatchMsg(validCmds) } } }"]
 
 def fact_body_Every : List String := [
     "{ n := time.Now() d := n.Truncate(duration).Add(duration).Sub(n) t := time.NewTimer(d) return func() Msg { ts := <-t.C t.Stop() for len(t.C) > 0 { <-t.C } return fn(ts) } }"]
@@ -226,6 +226,37 @@ def fact_gostmts : List String := [
     "Program.suspend|p.Send",
     "channelHandlers.shutdown|func-literal",
     "standardRenderer.start|r.listen"]
+
+def fact_locks : List String := [
+    "altScreen|Lock;defer Unlock",
+    "bracketedPasteActive|Lock;defer Unlock",
+    "clearScreen|Lock;defer Unlock;r.execute;r.execute",
+    "disableBracketedPaste|Lock;defer Unlock;r.execute",
+    "disableMouseAllMotion|Lock;defer Unlock;r.execute",
+    "disableMouseCellMotion|Lock;defer Unlock;r.execute",
+    "disableMouseSGRMode|Lock;defer Unlock;r.execute",
+    "disableReportFocus|Lock;defer Unlock;r.execute",
+    "enableBracketedPaste|Lock;defer Unlock;r.execute",
+    "enableMouseAllMotion|Lock;defer Unlock;r.execute",
+    "enableMouseCellMotion|Lock;defer Unlock;r.execute",
+    "enableMouseSGRMode|Lock;defer Unlock;r.execute",
+    "enableReportFocus|Lock;defer Unlock;r.execute",
+    "enterAltScreen|Lock;defer Unlock;r.execute;r.execute;r.execute;r.execute;r.execute",
+    "execute|io.WriteString",
+    "exitAltScreen|Lock;defer Unlock;r.execute;r.execute;r.execute",
+    "flush|Lock;defer Unlock;r.out.Write;r.buf.Reset",
+    "handleMessages|Lock;Unlock;Lock;Unlock;Lock;Unlock;Lock;Unlock;Lock;Unlock",
+    "hideCursor|Lock;defer Unlock;r.execute",
+    "insertBottom|Lock;defer Unlock;r.out.Write",
+    "insertTop|Lock;defer Unlock;r.out.Write",
+    "kill|Lock;defer Unlock;r.execute;r.execute",
+    "listen|r.flush",
+    "reportFocus|Lock;defer Unlock",
+    "setIgnoredLines|Lock;defer Unlock;r.out.Write",
+    "setWindowTitle|r.execute",
+    "showCursor|Lock;defer Unlock;r.execute",
+    "stop|r.flush;Lock;defer Unlock;r.execute;r.execute",
+    "write|Lock;defer Unlock;r.buf.Reset;r.buf.WriteString"]
 
 def fact_makechans : List String := [
     "NewProgram|chan Msg|cap=0",
